@@ -18,8 +18,18 @@ def gen_arc(rng):
     return rng.randrange(0, 1 << rng.choice([8, 14, 16, 21, 28, 32]))
 
 
+WELL_KNOWN = [(1, 3, 6, 1, 2, 1), (1, 3, 6, 1, 4, 1), (1, 3, 6, 1, 6, 3), (1, 3, 6, 1, 6, 1), (1, 3, 6, 1, 6, 2), (1, 3, 6, 1, 3), (1, 3, 6, 1, 5),
+              (1, 3, 6, 1, 2, 1, 1), (1, 3, 6, 1, 2, 1, 2, 2, 1), (1, 3, 6, 1, 6, 3, 1, 1, 4, 1), (1, 3, 6, 1, 6, 3, 10, 2, 1), (1, 3, 6, 1, 6, 3, 15, 1, 1),
+              (1, 3, 6, 1, 4, 1, 9), (1, 3, 6, 1, 4, 1, 2636), (1, 0, 8802, 1, 1, 2), (1, 2, 840, 10006, 300, 43), (2, 16, 840, 1, 113883)]
+
+
 def gen_oid(rng, min_arcs=2, max_arcs=14, first=None):
     """A valid OID whose first octet is < 120 (first arc 0..2, second 0..39)."""
+    if first is None and min_arcs <= 8 <= max_arcs and rng.random() < 0.15:
+        # names as they occur in practice: a well-known root and a few arcs below it (code that treats such roots
+        # specially is only exercised by them)
+        root = rng.choice(WELL_KNOWN)
+        return root + tuple(gen_arc(rng) for _ in range(rng.randint(0, max(0, min(max_arcs, 14) - len(root)))))
     n = rng.randint(min_arcs, max_arcs)
     a0 = rng.choice([0, 1, 1, 1, 2]) if first is None else first
     a1 = rng.choice([0, 3, 3, 39, rng.randrange(40)])
